@@ -24,6 +24,11 @@ CLAIMED["C16"] = dict(
     text="Gap degree, blocks and tree degree are compared with maximal runs of token positions on every node of every enumerated shape (<=5 tokens) and of random trees up to 14/18 tokens; the three notions of discontinuity must agree on each tree; disco_order must be a permutation in which every node is contiguous, equal to the left-to-right flattening in mode left and the identity on continuous trees; the three analysis tasks (API and real `treetools treeanalysis` subprocess) must print totals and per-degree histograms equal to the model's.",
     note="Trusted: set model, the export encoder in vlib/codecs_tree.py, regex parsing of the printed summary. Mode rightd is only constrained as far as the property states (permutation, continuity, identity on continuous trees).",
     ref="DESIGN.md section 2, C16")
+CLAIMED["C15"] = dict(
+    tech="Hypothesis trees with all edge-label assignments vs. the stated NeGra heuristic; exhaustive enumeration of both head-rule tables (parent x listed category x arity x position) + Hypothesis decorated/embedded variants; invalid presets",
+    text="For the NeGra heuristic, random trees with several/one/no HD and NK edges are marked and every constituent is compared with 'leftmost HD, else rightmost NK, else leftmost'. For rule-based marking every (preset, parent category, listed category, arity 2..4, position) combination with the other children unlisted is enumerated exhaustively and must select the listed child; Hypothesis adds random case, decorated labels and embedding. In all runs: exactly one head child per constituent, all others False, root False, the ' mark exactly on heads, tree otherwise unchanged; invalid rule sources must raise ValueError.",
+    note="Trusted: rule tables read as data from transformconst; the claim checked for rules is only the stated one (a uniquely listed child is the head). Label stripping uses the reference parser of checks/C20.py.",
+    ref="DESIGN.md section 2, C15")
 PENDING_REASON = "check not built yet in this round (planned, see DESIGN.md section 6); not claimed until it is quiet on the unchanged tree"
 
 
